@@ -1427,7 +1427,8 @@ def tag_spec(repo, run, rule, tags):
             else:
                 run.ok(rule, (md.fi.file, md.make.lineno, md.fi.qualname), '%s:<metadata> -> %s with the decoded metadata' % (tag, want_cls or md.node_type))
     for helper, target, kw, obj in (('add_constructor', 'yaml.add_constructor', 'Loader', 'AwesomeyamlLoader'), ('add_multi_constructor', 'yaml.add_multi_constructor', 'Loader', 'AwesomeyamlLoader'),
-                                    ('add_representer', 'yaml.add_representer', 'Dumper', 'AwesomeyamlDumper'), ('add_multi_representer', 'yaml.add_multi_representer', 'Dumper', 'AwesomeyamlDumper')):
+                                    ('add_representer', 'yaml.add_representer', 'Dumper', 'AwesomeyamlDumper'), ('add_multi_representer', 'yaml.add_multi_representer', 'Dumper', 'AwesomeyamlDumper'),
+                                    ('add_implicit_resolver', 'yaml.add_implicit_resolver', 'Loader', 'AwesomeyamlLoader')):
         q = 'yaml.' + helper
         if q not in repo.functions:
             continue
@@ -1726,3 +1727,40 @@ def dump_entry(repo, run, rule):
         run.violation(rule, fi, 'yaml.dump', '; '.join(sorted(probs)[:3]))
     else:
         run.ok(rule, fi, 'yaml.dump: nodes, stream, dumper factory and options handed on; text returned iff no output (%d paths)' % n)
+
+
+def parse_errors(repo, run, rule):
+    """yaml.parse on traces (default configuration of the errors module: rethrow and keep the original exception): whatever goes
+    wrong while PyYAML loads the text is reported as a ParsingError built with all its arguments, the original exception as cause; a
+    ParsingError raised below passes unchanged"""
+    fi = repo.func('yaml.parse')
+    n = 0
+    probs = set()
+    for p in tr.paths_of(repo, fi, no_inline={'_encode_all_metadata', 'global_ctx'}, follow_exceptions=True):
+        ex = [t.split(':', 1)[1] for t, pol in p.facts if pol and t.startswith('exception:')]
+        if not ex or not any(e.kind == 'call' and e.callee in ('yaml.load_all', 'yaml.load') for e in p.events):
+            continue
+        facts = dict(p.facts)
+        fin = [e for e in p.events if e.kind == 'raise']
+        if ex[-1].endswith('ParsingError'):
+            if p.status != 'raise' or not fin or fin[-1].value.text != '<reraise>':
+                probs.add('a ParsingError raised while loading is not passed on unchanged')
+            continue
+        if ex[-1] not in ('Exception', 'BaseException') or facts.get('errors.rethrow') is not True or facts.get('errors.include_original_exception') is not True:
+            continue
+        n += 1
+        v = fin[-1].value.ast if fin else None
+        if p.status != 'raise' or not isinstance(v, ast.Call) or not norm(v.func).endswith('ParsingError'):
+            probs.add('with re-throwing enabled an exception raised while loading is not converted into a ParsingError (%s %s)' % (p.status, norm(v)[:40] if v is not None else ''))
+            continue
+        kw = {k.arg for k in v.keywords}
+        if len(v.args) + len(kw & {'error_msg'}) < 1 or not ({'node'} <= kw or len(v.args) >= 2):
+            probs.add('the ParsingError is built without its message / node argument (%s): building it fails with a TypeError instead' % norm(v)[:80])
+        if fin[-1].target != 'caught_exception':
+            probs.add('the original exception is not the cause of the ParsingError')
+    if not n:
+        raise AnalysisError('yaml.parse: no path converts a loading error under errors.rethrow / errors.include_original_exception')
+    if probs:
+        run.violation(rule, fi, 'yaml.parse error reporting', '; '.join(sorted(probs)[:3]))
+    else:
+        run.ok(rule, fi, 'yaml.parse: loading errors -> ParsingError(str(e), node=None, path=None) from e; ParsingError passes (%d paths)' % n)
